@@ -27,6 +27,9 @@ func staticBatch(run *report.Run, test string, from, to int, extra []string) ([]
 	return RunBatch(BatchOpts{Driver: drv, TestName: test, From: from, To: to, Dir: dir, Args: args}), nil
 }
 
+// C17ProcessPart (set by package e6) confirms the algebra at the command line.
+var C17ProcessPart func(run *report.Run, tier string)
+
 // RunC17: labels and patterns follow the documented algebra.
 func RunC17(tier string) int {
 	run := report.New("C17", tier, "exploration",
@@ -82,6 +85,9 @@ func RunC17(tier string) int {
 			run.Violation(k, fmt.Sprintf("%d strings violate %s, e.g. %s", r.Violations[k], k, r.Examples[k]), map[string]any{"example": r.Examples[k]})
 		}
 		run.Sample(map[string]any{"alphabet": "ab/:.-", "max_len": L, "universe_packages": 11, "universe_names": 9, "documented_patterns": r.Documented})
+	}
+	if C17ProcessPart != nil {
+		C17ProcessPart(run, tier)
 	}
 	run.Assume("the reference matcher is written from docs/reference/labels.md; package paths with empty components are outside the documented forms")
 	return run.Finish()
